@@ -291,10 +291,17 @@ def report(prop, tier, seed, units, canaries, bounded, berr, pm, t_start, verbos
             print("VIOLATION property=%s replay=%s" % (prop, path))
         else:
             print("VIOLATION property=%s replay=%s no-failing-input-found" % (prop, path))
+    per_clause = {}
     for v in b_viol:
         n_viol += 1
+        k = per_clause[v.get("clause")] = per_clause.get(v.get("clause"), 0) + 1
+        if k > 25:          # every violation counts; only the first 25 per clause get a replay file and a line
+            continue
         path = write_bounded_replay(replay_dir, prop, v)
         print("VIOLATION property=%s replay=%s" % (prop, path))
+    for c, k in per_clause.items():
+        if k > 25:
+            print("  (+%d more bounded violations of clause %s, not listed)" % (k - 25, c))
     for r in undecided:
         print("UNDECIDED %s %s" % (r["oid"], (r.get("model") or "")[:80]))
     for u in crashed:
